@@ -64,6 +64,7 @@ type Ctl struct {
 	strategy string
 	replay   []string
 	spinCnt  map[string]int
+	ignore   map[int64]bool    // goroutines that existed before this execution began (left over by an abandoned one)
 	held     map[*Arrival]bool // strategy "hold": arrivals at cond-wait gates that are being held back
 	decided  map[*Arrival]bool
 	dfs      *DFS
@@ -265,7 +266,7 @@ func (c *Ctl) quiesce(budget time.Duration) (snap []GInfo, ok bool) {
 		snap = Snapshot()
 		all := true
 		for i := range snap {
-			if snap[i].Gid == c.selfGid {
+			if snap[i].Gid == c.selfGid || c.ignore[snap[i].Gid] {
 				continue
 			}
 			if !snap[i].Blocked {
@@ -288,6 +289,9 @@ func (c *Ctl) drain() {
 	for {
 		select {
 		case a := <-c.arrivals:
+			if c.ignore[a.Gid] {
+				continue // a leftover of an earlier execution: it stays parked at its gate for ever
+			}
 			c.gated[a.Gid] = a
 			if strings.HasSuffix(a.Pt, ".tw1") {
 				delete(c.timed, a.Gid)
@@ -379,6 +383,12 @@ func (c *Ctl) Begin(o Options) {
 	c.mu.Unlock()
 	c.gated = map[int64]*Arrival{}
 	c.timed = map[int64]bool{}
+	c.ignore = map[int64]bool{}
+	for _, g := range Snapshot() {
+		if g.Gid != c.selfGid {
+			c.ignore[g.Gid] = true
+		}
+	}
 	c.Steps = nil
 	c.Choices = nil
 	c.rng = rand.New(rand.NewSource(o.Seed))
@@ -410,7 +420,7 @@ func (c *Ctl) Begin(o Options) {
 func (c *Ctl) Run(o Options, driversDone func() bool) Result {
 	var res Result
 	if o.Budget == 0 {
-		o.Budget = 10 * time.Second
+		o.Budget = 3 * time.Second
 	}
 	if o.MaxSteps == 0 {
 		o.MaxSteps = 5000
